@@ -392,6 +392,22 @@ def export_sm(entity_cls):
     root = ctxs[0].code()
     case = find_case(root)
     state_sig = case._value if case is not None else None
+    # states are identified by their position among the enumerators (names are irrelevant); the power-up value of
+    # the state signal must be state 0 of the certificate
+    order = {}
+    if case is not None:
+        first = case._branches[0].cond
+        mem = type(first).__members__
+        members = list(mem.keys()) if hasattr(mem, "keys") else [m.name for m in mem]
+        order = {nm: i for i, nm in enumerate(members)}
+        init = state_sig._root.default() if hasattr(state_sig._root, "default") else None
+        if init is not None and order.get(init.name, 0) != 0:
+            raise Unsupported("initial state is not the first enumerator")
+
+    def state_index(val):
+        if val.name not in order:
+            raise Unsupported(f"unknown state {val.name}")
+        return order[val.name]
 
     def cond_of(test):
         name = getattr(test, "_name", None)
@@ -426,10 +442,7 @@ def export_sm(entity_cls):
         if isinstance(s, ir.SignalAssignment):
             tgt, src = s._target, s._source
             if state_sig is not None and tgt._root is state_sig._root:
-                nm = src.name
-                if not nm.startswith("state_"):
-                    raise Unsupported(f"state name {nm}")
-                return f"(trans {int(nm[6:])} {conv(rest, k)})"
+                return f"(trans {state_index(src)} {conv(rest, k)})"
             nm = getattr(tgt, "_name", None)
             if not (nm and nm[0] == "o" and nm[1:].isdigit()) or tgt._ref_spec:
                 raise Unsupported(f"assignment to {nm}")
@@ -444,8 +457,7 @@ def export_sm(entity_cls):
         return f"(sm {conv([body], 'nil')})"
     codes = {}
     for val, blk in case._branches:
-        nm = val.name
-        codes[int(nm[6:])] = conv([blk], "nil")
+        codes[state_index(val)] = conv([blk], "nil")
     if case._default is not None and not case._default.empty():
         raise Unsupported("default branch of the state case is not empty")
     n = max(codes) + 1
